@@ -18,7 +18,7 @@ import (
 
 // Sink describes the simulated stdio environment of one execution.
 type Sink struct {
-	Stdout string `json:"stdout"`                // pty | pipe | pipe-slow | file | pipe-close | devfull
+	Stdout string `json:"stdout"`                // pty | pipe | pipe-slow | pipe-lazy | file | pipe-close | devfull
 	Stderr string `json:"stderr"`                // pipe | file | same
 	Chunks []int  `json:"chunks,omitempty"`      // pipe-slow: read sizes (cycled)
 	CloseK int    `json:"close_after,omitempty"` // pipe-close: bytes read before the reader goes away
@@ -79,6 +79,7 @@ func RunUnder(argv []string, sink Sink, dir string, timeout time.Duration) (*Exe
 	var outBuf, errBuf bytes.Buffer
 	var closers []io.Closer
 	var after []func()
+	exited := make(chan struct{})
 
 	switch sink.Stdout {
 	case "pty":
@@ -113,7 +114,7 @@ func RunUnder(argv []string, sink Sink, dir string, timeout time.Duration) (*Exe
 		}
 		cmd.Stdout = f
 		closers = append(closers, f)
-	case "pipe", "pipe-slow", "pipe-close":
+	case "pipe", "pipe-slow", "pipe-lazy", "pipe-close":
 		r, w, err := os.Pipe()
 		if err != nil {
 			return nil, err
@@ -145,6 +146,44 @@ func RunUnder(argv []string, sink Sink, dir string, timeout time.Duration) (*Exe
 					if err != nil {
 						return
 					}
+				}
+			case "pipe-lazy":
+				// a stalled consumer: it takes a piece only when the writer has made
+				// no progress for a while (it is blocked on the full pipe, or idle),
+				// and drains what is left once the program has ended. A correct
+				// program delivers the same bytes however lazy the reader is.
+				i, last, still := 0, -1, 0
+				for {
+					select {
+					case <-exited:
+						io.Copy(&outBuf, r)
+						return
+					default:
+					}
+					var n int32
+					syscall.Syscall(syscall.SYS_IOCTL, r.Fd(), 0x541B /* FIONREAD */, uintptr(unsafe.Pointer(&n)))
+					if n > 0 && int(n) == last {
+						still++
+					} else {
+						still = 0
+					}
+					last = int(n)
+					if still < 4 {
+						time.Sleep(250 * time.Microsecond)
+						continue
+					}
+					sz := 512
+					if len(sink.Chunks) > 0 {
+						sz = sink.Chunks[i%len(sink.Chunks)]
+						i++
+					}
+					buf := make([]byte, sz)
+					k, err := r.Read(buf)
+					outBuf.Write(buf[:k])
+					if err != nil {
+						return
+					}
+					last, still = -1, 0
 				}
 			default: // pipe-close
 				buf := make([]byte, sink.CloseK)
@@ -184,10 +223,12 @@ func RunUnder(argv []string, sink Sink, dir string, timeout time.Duration) (*Exe
 		c.Close() // the child holds its own copies
 	}
 	if err != nil {
+		close(exited)
 		wg.Wait()
 		return nil, err
 	}
 	cmd.Wait()
+	close(exited)
 	wg.Wait()
 	for _, f := range after {
 		f()
@@ -225,6 +266,7 @@ func Sinks(r *core.Rng, all bool) []Sink {
 		{Stdout: "file", Stderr: core.Pick(r, []string{"pipe", "file"})},
 		{Stdout: "pty", Stderr: "pipe"},
 		{Stdout: "pipe-slow", Stderr: "pipe", Chunks: chunks()},
+		{Stdout: "pipe-lazy", Stderr: core.Pick(r, []string{"pipe", "pipe", "file", "same"}), Chunks: []int{core.Pick(r, []int{1000, 2500, 4096})}},
 	}
 	extra := []Sink{
 		{Stdout: "pipe", Stderr: "same"},
